@@ -534,15 +534,7 @@ class C15(Prop):
         return "ctx/%dcalls%s" % (min(4, len(obs["calls"])), "/raised" if obs["raised"] else "")
 
     def finding_of(self, case, obs):
-        # F-C15: a sudo call whose env keyword is absent/None while run.env is configured non-empty
-        if case["kind"] != "ctx":
-            return None
-        cfg_env = case["config"].get("run", {}).get("env")
-        if not (cfg_env and cfg_env.get("dict")):
-            return None
-        for st in walk(case["prog"]):
-            if st[0] == "sudo" and st[2].get("env") is None:
-                return "F-C15"
+        # F-C15 is fixed in /repo (c2a3b37): nothing is attributed any more
         return None
 
     def shrink_candidates(self, case):
